@@ -25,8 +25,9 @@
 (* Places where the code is known to differ from the property are named    *)
 (* deviations (constant Deviations); every implementation-shaped operator  *)
 (* takes the set of deviations in force, so one TLC run yields for every   *)
-(* statement the property's answer (expect), the answer of the unchanged   *)
-(* tree (known) and the deviations responsible for the difference (hit).   *)
+(* statement the property's answer (expect) and the answers the tree gives *)
+(* under the exercised deviations (alts, each with the smallest set of     *)
+(* deviations that explains it; the full set is the unchanged tree).       *)
 (*                                                                         *)
 (* Domains.  Time: grid positions p = interval * G + offset, a time value  *)
 (* is x = 2p (the odd numbers are "1 ns after / before" a position, which  *)
@@ -300,18 +301,24 @@ PureRefinesDecl == ImplRows(AtomsOf(conj), 0 - 1, {}) = DeclRows(AtomsOf(conj))
 DeviationsExplainAllW == (Guards(AtomsOf(conj), <<>>, 0 - 1) = {})
                             => ImplRows(AtomsOf(conj), 0 - 1, Deviations) = ImplRows(AtomsOf(conj), 0 - 1, {})
 
-\* deviations responsible for a difference: those whose removal changes the known answer (all exercised ones
-\* when no single one does)
-HitW(as) == LET gs == Guards(as, <<>>, 0 - 1)
-                kn == ImplRows(as, 0 - 1, Deviations)
-                rs == {d \in gs : ImplRows(as, 0 - 1, Deviations \ {d}) # kn}
-            IN IF kn = DeclRows(as) THEN {} ELSE IF rs = {} THEN gs ELSE rs
+\* What the tree may answer instead of the property's answer, and why: for every answer that some subset of the
+\* exercised deviations produces, the smallest such subsets (their union).  The full set is the unchanged tree; the
+\* proper subsets are what remains after some of the listed defects have been repaired.
+MinExpl(gs, Same(_)) == LET expl == {D \in SUBSET gs : Same(D)}
+                            m == CHOOSE n \in 0..Cardinality(gs) : (\E D \in expl : Cardinality(D) = n) /\ \A D \in expl : Cardinality(D) >= n
+                        IN UNION {D \in expl : Cardinality(D) = m}
+Alts(gs, F(_), exp) == LET answers == {F(D) : D \in SUBSET gs} \ {exp}
+                           Devs(r) == LET Same(D) == F(D) = r IN MinExpl(gs, Same)
+                       IN {[ans |-> r, devs |-> Devs(r)] : r \in answers}
+AltsW(as) == LET F(D) == ImplRows(as, 0 - 1, D) IN Alts(Guards(as, <<>>, 0 - 1), F, DeclRows(as))
+\* the unchanged tree is among them (deviations whose guard is false change nothing)
+GuardsSufficeW == LET as == AtomsOf(conj) IN ImplRows(as, 0 - 1, Guards(as, <<>>, 0 - 1)) = ImplRows(as, 0 - 1, Deviations)
 
 SampledW == \/ Len(conj) = 1
             \/ (Len(conj) >= 2 /\ (conj[1] * 131 + conj[2] * 31337 + (IF Len(conj) > 2 THEN conj[3] * 7 ELSE 0) + SampleSalt) % SampleMod = 0)
 EmitW == (conj # <<>> /\ SampledW) =>
            LET as == AtomsOf(conj) IN
-           PrintT(<<"CASE", ToJson([conj |-> as, expect |-> DeclRows(as), known |-> ImplRows(as, 0 - 1, Deviations), hit |-> HitW(as)])>>)
+           PrintT(<<"CASE", ToJson([conj |-> as, expect |-> DeclRows(as), alts |-> AltsW(as)])>>)
 
 (***************************************************************************)
 (* C20 cases: select list x LIMIT x WHERE x INSERT target                  *)
@@ -365,10 +372,8 @@ DeviationsExplainAll20 == LET cs == CaseSeq[q] IN
 \* the WHERE clauses used here stay clear of the C19 deviations
 WhereIsClean20 == LET cs == CaseSeq[q] IN ImplRows(WOf(cs), 0 - 1, Deviations) = DeclRows(WOf(cs))
 
-Hit20(cs) == LET gs == Guards(WOf(cs), cs.sel, cs.lim)
-                 kn == Answer20(cs, Deviations, FALSE)
-                 rs == {d \in gs : Answer20(cs, Deviations \ {d}, FALSE) # kn}
-             IN IF kn = Answer20(cs, {}, TRUE) THEN {} ELSE IF rs = {} THEN gs ELSE rs
+Alts20(cs) == LET F(D) == Answer20(cs, D, FALSE) IN Alts(Guards(WOf(cs), cs.sel, cs.lim), F, Answer20(cs, {}, TRUE))
+GuardsSuffice20 == LET cs == CaseSeq[q] IN Answer20(cs, Guards(WOf(cs), cs.sel, cs.lim), FALSE) = Answer20(cs, Deviations, FALSE)
 
 Sampled20 == LET cs == CaseSeq[q] IN
              \/ cs.star /\ cs.ins = 0                                     \* every LIMIT x WHERE case
@@ -377,8 +382,7 @@ Sampled20 == LET cs == CaseSeq[q] IN
 Emit20 == Sampled20 =>
             LET cs == CaseSeq[q] IN
             PrintT(<<"CASE", ToJson([star |-> cs.star, sel |-> cs.sel, lim |-> cs.lim, w |-> WOf(cs), ins |-> cs.ins,
-                                     expect |-> Answer20(cs, {}, TRUE), known |-> Answer20(cs, Deviations, FALSE),
-                                     hit |-> Hit20(cs)])>>)
+                                     expect |-> Answer20(cs, {}, TRUE), alts |-> Alts20(cs)])>>)
 
 \* hides nothing: the state is the case itself
 View == vars
